@@ -2321,6 +2321,7 @@ def main():
     h = source_hash()
     stamp = os.path.join(GEN, 'stamp-' + h)
     outs = {'GenMessages.v': os.path.join(OUT, 'GenMessages.v'), 'GenObligations.v': os.path.join(OUT, 'GenObligations.v'),
+            'GenEnums.v': os.path.join(OUT, 'GenEnums.v'),
             'gen_msgs_dispatch.inc': os.path.join(GEN, 'gen_msgs_dispatch.inc'), 'msgs_meta.json': os.path.join(GEN, 'msgs_meta.json')}
     cache = os.path.join(GEN, 'cache-' + h)
     if os.path.isdir(cache) and all(os.path.exists(os.path.join(cache, k)) for k in outs):
@@ -2343,6 +2344,7 @@ def main():
                'enums': {k: v['values'] for k, v in sorted(world.enums.items())}}
     files['GenObligations.v'] = gen_obligations_v(fns, meta, pairs, allmeta, world)
     files['msgs_meta.json'] = json.dumps(allmeta, indent=0, sort_keys=True)
+    files['GenEnums.v'] = gen_enums_v(allmeta['enums'])
     import shutil
     for old in [d for d in os.listdir(GEN) if d.startswith('cache-')]:
         shutil.rmtree(os.path.join(GEN, old), ignore_errors=True)
@@ -2444,6 +2446,21 @@ def gamma_of(world, fn, meta_d):
         else:
             out.append('TTxt')
     return out
+
+
+def gen_enums_v(enums):
+    """every enumeration of the library headers with the value of each enumerator as clang computed it (names as Coq strings)"""
+    L = ['(* GENERATED by tools/cxx2coq.py from the enumerations of <repo>/src (clang AST) - do not edit *)',
+         'From Coq Require Import ZArith List String.', 'Import ListNotations.', 'Local Open Scope Z_scope.', 'Local Open Scope string_scope.', '',
+         'Definition gen_enums : list (string * list (string * Z)) := [']
+    items = []
+    for t, vals in sorted(enums.items()):
+        if not re.fullmatch(r'[A-Za-z_][A-Za-z_0-9]*', t):
+            continue
+        items.append('  ("%s", [%s])' % (t, '; '.join('("%s", %s)' % (n, v if v >= 0 else '(%d)' % v) for n, v in vals)))
+    L.append(';\n'.join(items))
+    L.append('].')
+    return '\n'.join(L) + '\n'
 
 
 def gen_obligations_v(fns, meta, pairs, allmeta, world):
